@@ -198,16 +198,26 @@ class Inliner:
     def run(self):
         if self.known is None:
             return self.tree      # a module that is not in the inventory: analysed as written
-        for st in self.tree.body:
-            if isinstance(st, ast.FunctionDef) and st.name not in self.known:
-                self._register(st, None)
-            elif isinstance(st, ast.ClassDef):
-                for sub in st.body:
-                    if isinstance(sub, ast.FunctionDef) and (st.name + "." + sub.name) not in self.known:
-                        self._register(sub, st.name)
+        def all_functions():
+            for st in self.tree.body:
+                if isinstance(st, ast.FunctionDef):
+                    yield st, None
+                elif isinstance(st, ast.ClassDef):
+                    for sub in st.body:
+                        if isinstance(sub, ast.FunctionDef):
+                            yield sub, st.name
+        # local closures first: a helper that defines one can be inlined once the closure has been dissolved in it
         for node in ast.walk(self.tree):
             if isinstance(node, ast.FunctionDef):
                 self._register_nested(node)
+        if self.nested:
+            for fn_, cls_ in all_functions():
+                if id(fn_) in self.nested:
+                    self._inline_in(fn_, cls_)
+        for fn_, cls_ in all_functions():
+            qual = (cls_ + "." if cls_ else "") + fn_.name
+            if qual not in self.known:
+                self._register(fn_, cls_)
         if not self.helpers and not self.nested:
             return self.tree
         for _ in range(4):
@@ -496,6 +506,14 @@ class Inliner:
             return ast.fix_missing_locations(ast.copy_location(new, st))
 
         def rewrite_stmt(st):
+            # if (x := E): ...   ->   x = E; if x: ...      (only where E needs rewriting itself)
+            if isinstance(st, ast.If) and isinstance(st.test, ast.NamedExpr) and isinstance(st.test.target, ast.Name) and \
+                    (calls_in([st.test.value]) or isinstance(st.test.value, (ast.ListComp, ast.SetComp, ast.DictComp))):
+                first = ast.copy_location(ast.Assign(targets=[ast.Name(id=st.test.target.id, ctx=ast.Store())], value=st.test.value), st)
+                st.test = ast.copy_location(ast.Name(id=st.test.target.id, ctx=ast.Load()), st.test)
+                ast.fix_missing_locations(first)
+                changed[0] = True
+                return rewrite_stmt(first) + rewrite_stmt(st)
             ml = map_loop(st)
             if ml is not None:
                 changed[0] = True
@@ -616,6 +634,15 @@ class Inliner:
             return pre + [st]
 
         fn.body = rewrite_block(fn.body)
+        # a helper whose own body was just rewritten (a helper calling a helper) is inlined with the rewritten body
+        for h in list(self.helpers.values()) + [x for d in self.nested.values() for x in d.values()]:
+            if h.fn is fn:
+                body = list(fn.body)
+                if body and isinstance(body[0], ast.Expr) and isinstance(body[0].value, ast.Constant) and isinstance(body[0].value.value, str):
+                    body = body[1:]
+                h.body = body
+                h.locals = _stored_names(fn) | set(h.params)
+                h.expr = body[0].value if len(body) == 1 and isinstance(body[0], ast.Return) and body[0].value is not None else None
         local = self.nested.get(id(fn), {})
         if local:
             still = {n.id for n in ast.walk(fn) if isinstance(n, ast.Name) and isinstance(n.ctx, ast.Load)}
@@ -739,7 +766,110 @@ def _list_acc_to_str(tree):
     return count
 
 
+def _attr_chain(e):
+    """['a', 'b', 'c'] for the expression a.b.c (names and attributes only), else None"""
+    parts = []
+    while isinstance(e, ast.Attribute):
+        parts.append(e.attr)
+        e = e.value
+    if isinstance(e, ast.Name):
+        parts.append(e.id)
+        return list(reversed(parts))
+    return None
+
+
+def _unalias_lookups(tree):
+    """x = a.b.c  ...  x(...) / x[k]   ->   a.b.c(...) / a.b.c[k]
+    for a local that is bound once to an attribute look-up and only read afterwards, when neither `a` nor any prefix of the
+    path is rebound from there on: the hoisting of an invariant look-up out of a loop (bound methods, node and edge views,
+    module functions) is undone, so that the rules see the call or subscript they are anchored on."""
+    count = 0
+    for fn in ast.walk(tree):
+        if not isinstance(fn, ast.FunctionDef):
+            continue
+        params = {a.arg for a in fn.args.args + fn.args.kwonlyargs + fn.args.posonlyargs}
+        if fn.args.vararg:
+            params.add(fn.args.vararg.arg)
+        if fn.args.kwarg:
+            params.add(fn.args.kwarg.arg)
+        own = [n for n in _walk_own(fn)]
+        stores = {}
+        for n in own:
+            if isinstance(n, ast.Name) and isinstance(n.ctx, (ast.Store, ast.Del)):
+                stores.setdefault(n.id, []).append(n)
+        if any(isinstance(n, (ast.Global, ast.Nonlocal)) for n in own):
+            continue
+        cands = []
+        for n in own:
+            if isinstance(n, ast.Assign) and len(n.targets) == 1 and isinstance(n.targets[0], ast.Name) and isinstance(n.value, ast.Attribute):
+                name = n.targets[0].id
+                chain = _attr_chain(n.value)
+                if chain is None or name in params or len(stores.get(name, [])) != 1 or chain[0] == name:
+                    continue
+                if chain[0] in stores and chain[0] not in params:
+                    # the base object is itself a local that is assigned: only safe when it is assigned once, before
+                    if len(stores[chain[0]]) != 1 or stores[chain[0]][0].lineno >= n.lineno:
+                        continue
+                cands.append((n, name, chain))
+        if not cands:
+            continue
+        # nested scopes (closures, comprehensions reading the alias) keep working: loads everywhere below fn are replaced
+        for st, name, chain in cands:
+            prefixes = {".".join(chain[:i]) for i in range(1, len(chain) + 1)}
+            rebound = False
+            for n in ast.walk(fn):
+                tgt = None
+                if isinstance(n, (ast.Attribute, ast.Name)) and isinstance(getattr(n, "ctx", None), (ast.Store, ast.Del)):
+                    tgt = n
+                if tgt is not None and tgt is not st.targets[0]:
+                    c2 = _attr_chain(tgt)
+                    if c2 is not None and ".".join(c2) in prefixes and getattr(tgt, "lineno", 0) >= st.lineno:
+                        rebound = True
+            loads = [n for n in ast.walk(fn) if isinstance(n, ast.Name) and n.id == name and isinstance(n.ctx, ast.Load)]
+            if rebound or not loads or any(l.lineno < st.lineno for l in loads):
+                continue
+            # inside a loop the look-up would be repeated per iteration with the same result: still equal as long as nothing is rebound
+            in_loop_rebind = False
+            for loop in ast.walk(fn):
+                if isinstance(loop, (ast.For, ast.While)) and any(x is st for x in ast.walk(loop)):
+                    for n in ast.walk(loop):
+                        if isinstance(n, (ast.Attribute, ast.Name)) and isinstance(getattr(n, "ctx", None), (ast.Store, ast.Del)) and n is not st.targets[0]:
+                            c2 = _attr_chain(n)
+                            if c2 is not None and ".".join(c2) in prefixes:
+                                in_loop_rebind = True
+            if in_loop_rebind:
+                continue
+
+            class R(ast.NodeTransformer):
+                def visit_Name(self, n):
+                    if n.id == name and isinstance(n.ctx, ast.Load):
+                        return ast.copy_location(copy.deepcopy(st.value), n)
+                    return n
+
+                def visit_Assign(self, n):
+                    if n is st:
+                        return ast.copy_location(ast.Pass(), n)
+                    return self.generic_visit(n)
+            R().visit(fn)
+            count += 1
+    if count:
+        ast.fix_missing_locations(tree)
+    return count
+
+
+def _walk_own(fn):
+    """nodes of fn's own scope (nested function bodies excluded)"""
+    stack = list(ast.iter_child_nodes(fn))
+    while stack:
+        n = stack.pop()
+        yield n
+        if isinstance(n, (ast.FunctionDef, ast.AsyncFunctionDef, ast.ClassDef, ast.Lambda)):
+            continue
+        stack.extend(ast.iter_child_nodes(n))
+
+
 def inline_module(tree, modname):
+    n_alias = _unalias_lookups(tree)
     n_acc = _list_acc_to_str(tree)
     jt = _JoinToLoop()
     tree = jt.run(tree)
@@ -751,4 +881,6 @@ def inline_module(tree, modname):
     if n_acc:
         ast.fix_missing_locations(tree)
         inl.report.append("%d list accumulators joined with the empty string read as string accumulators" % n_acc)
+    if n_alias:
+        inl.report.append("%d hoisted attribute look-ups read in place" % n_alias)
     return tree, inl.report
